@@ -60,6 +60,11 @@ def random_cases(rng, count):
                 by = Fraction(rng.randint(-80, 80), 8)
             cx = Fraction(rng.randint(1, 12), rng.choice([1, 2, 4, 8]))
             dx = Fraction(rng.randint(-80, 80), 8)
+            if not adaptive and rng.random() < 0.25:
+                # minutes / hours to seconds: generic (not power-of-two) time scales with larger oversampling factors
+                cx = Fraction(rng.choice([60, 300, 3600, 900]))
+                c["n"] = rng.choice([7, 13, 14, 26, 28, 21, 30])
+                c["a"] = rng.choice([-1, rng.randint(0, c["n"])])
             c["maps"] = [R(ay), R(by), R(cx), R(dx)]
         elif kind == "local":
             c["j"] = rng.randrange(len(xs))
